@@ -973,7 +973,6 @@ class CCodeGenerator:
         for field in typ.fields:
             # Move further in struct by whole bytes:
             field_offset = field_offsets[field] // 8
-            field_ptr = self._offset_address(ptr, field_offset)
 
             # Fill position:
             if field.is_bitfield:  # Bit field special case!
@@ -981,16 +980,30 @@ class CCodeGenerator:
                     value = expr.values[field]
                     value = self.gen_expr(value, rvalue=True)
                     bitsize = self.context.eval_expr(field.bitsize)
-                    bitshift = field_offsets[field] % 8
+                    # Take the smallest aligned unit with the whole
+                    # bit-field in it, a larger one can end after the
+                    # end of the struct.
+                    bit_offset = field_offsets[field]
+                    for unit in (8, 16, 32, 64):
+                        unit_offset = bit_offset - bit_offset % unit
+                        if bit_offset + bitsize <= unit_offset + unit:
+                            break
+                    else:
+                        # In no aligned unit, start at the first byte:
+                        unit_offset = bit_offset - bit_offset % 8
+                    unit_ptr = self._offset_address(ptr, unit_offset // 8)
+                    bitshift = bit_offset - unit_offset
                     signed = field.typ.is_signed
                     access = BitFieldAccess(
-                        field_ptr, bitshift, bitsize, signed
+                        unit_ptr, bitshift, bitsize, signed
                     )
                     self._store_bitfield(value, access)
             elif field in expr.values:
                 value = expr.values[field]
+                field_ptr = self._offset_address(ptr, field_offset)
                 self.gen_local_init(field_ptr, field.typ, value)
             elif not has_bitfields:
+                field_ptr = self._offset_address(ptr, field_offset)
                 self.gen_local_zero(field_ptr, field.typ)
 
     def gen_condition_to_integer(self, expr):
